@@ -6,9 +6,20 @@ import (
 	"github.com/luthersystems/elps/lisp"
 )
 
-// SortedMap implements lisp.Map and only supports string keys.  Values must be
-// lisp.LVal.
+// SortedMap implements lisp.Map.  Its keys are strings; like every sorted-map
+// it identifies a key by its name whether the key is given as a string or as
+// a symbol.  Values must be lisp.LVal.
 type SortedMap map[string]interface{}
+
+// keyName returns the name k denotes as a key, and false if k is neither a
+// string nor a symbol.
+func keyName(k *lisp.LVal) (string, bool) {
+	switch k.Type {
+	case lisp.LString, lisp.LSymbol:
+		return k.Str, true
+	}
+	return "", false
+}
 
 var _ lisp.Map = SortedMap(nil)
 
@@ -17,10 +28,11 @@ func (m SortedMap) Len() int {
 }
 
 func (m SortedMap) Get(k *lisp.LVal) (*lisp.LVal, bool) {
-	if k.Type != lisp.LString {
+	name, ok := keyName(k)
+	if !ok {
 		return lisp.Errorf("sorted-map decoded from json cannot hold key with type %s", lisp.GetType(k)), false
 	}
-	x, ok := m[k.Str]
+	x, ok := m[name]
 	if !ok {
 		return lisp.Nil(), false
 	}
@@ -28,18 +40,20 @@ func (m SortedMap) Get(k *lisp.LVal) (*lisp.LVal, bool) {
 }
 
 func (m SortedMap) Del(k *lisp.LVal) *lisp.LVal {
-	if k.Type != lisp.LString {
+	name, ok := keyName(k)
+	if !ok {
 		return lisp.Errorf("sorted-map decoded from json cannot hold key with type %s", lisp.GetType(k))
 	}
-	delete(m, k.Str)
+	delete(m, name)
 	return lisp.Nil()
 }
 
 func (m SortedMap) Set(k *lisp.LVal, v *lisp.LVal) *lisp.LVal {
-	if k.Type != lisp.LString {
+	name, ok := keyName(k)
+	if !ok {
 		return lisp.Errorf("sorted-map decoded from json cannot hold key with type %s", lisp.GetType(k))
 	}
-	m[k.Str] = v
+	m[name] = v
 	return lisp.Nil()
 }
 
